@@ -11,6 +11,24 @@ NCPU = 16
 os.environ.setdefault('RV_SCRATCH', os.path.join(BUILD, 'scratch'))
 
 
+def sweep_scratch():
+    """remove scratch directories left behind by harness processes that no longer exist (killed cases)"""
+    import re
+    import shutil
+    base = os.environ['RV_SCRATCH']
+    try:
+        names = os.listdir(os.fsencode(base))
+    except OSError:
+        return
+    for nme in names:
+        m = re.match(rb'p(\d+)-\d+$', nme)
+        if m and not os.path.exists('/proc/%s' % m.group(1).decode()):
+            shutil.rmtree(os.path.join(os.fsencode(base), nme), ignore_errors=True)
+
+
+sweep_scratch()
+
+
 def hx(s):
     if isinstance(s, str):
         s = s.encode('utf-8')
@@ -62,7 +80,6 @@ FLOAT_POOL_FAILURES = []
 
 def init_floats():
     """Ask the implementation for the text forms of the float pool (float formatting is not modelled)."""
-    global FLOATS
     if FLOATS:
         return
     lines = ['f%d float S%s' % (i, hx(t)) for i, t in enumerate(FLOAT_TEXTS)]
@@ -92,7 +109,7 @@ def init_floats():
             FLOAT_POOL_FAILURES.append({'text': t, 'line': lines[i], 'outcome': out['f%d' % i]})
             continue
         toks.append(FloatTok(kind, ytext, jtext))
-    FLOATS = toks
+    FLOATS[:] = toks          # in place: the generator modules hold this very list (from common import *)
 
 
 def enc(a):
